@@ -11,7 +11,8 @@
 //!             [start, end) of raw trace indices of the events emitted while that member was visited (found from the
 //!             bracket structure of the logged trace alone: members are the scopes opened directly inside the third
 //!             (methods) and the fourth (functions) scope of a toplevel's scope), or null when the bracket structure of
-//!             the trace does not have that shape ("split_error" says why)}
+//!             the trace does not have that shape ("split_error" says why),
+//!    "use_define": SsaAnalysisResult.use_define_map as sorted [use loc, definition loc] pairs}
 //! JSON shapes:
 //!   loc    = [start line, start column, end line, end column]
 //!   annot  = ["prim"] | ["id", same_module, name, loc, [annot]] | ["gen", name, loc] | ["fn", [annot], annot]
@@ -329,12 +330,16 @@ pub fn run_job(job: &Value) -> Value {
   // (ii) the trace of the real analysis
   let _ = take_ssa_events();
   let mut es = ErrorSet::new();
-  let res = catch_unwind(AssertUnwindSafe(|| {
-    samlang_checker::perform_ssa_analysis_on_module(mref, &parsed, &mut es);
-  }));
+  let res = catch_unwind(AssertUnwindSafe(|| samlang_checker::perform_ssa_analysis_on_module(mref, &parsed, &mut es)));
   let raw = take_ssa_events();
-  if let Err(e) = res {
-    out["panic"] = json!(format!("ssa: {}", panic_msg(e)));
+  match res {
+    Err(e) => out["panic"] = json!(format!("ssa: {}", panic_msg(e))),
+    Ok(r) => {
+      // the result the services read: use_define_map, for the direct comparison with the declarative rules
+      let mut ud: Vec<([u32; 4], [u32; 4])> = r.use_define_map.iter().map(|(u, d)| (l4(u), l4(d))).collect();
+      ud.sort();
+      out["use_define"] = json!(ud);
+    }
   }
   let trace: Vec<Value> = raw
     .iter()
